@@ -97,7 +97,21 @@ def export(S, rank, F, rng, out, case_id, ngraph):
                 nonint[0] = True
     args = {si: (rng.choice([-3, -2, -1, 1, 2, 3]), 0) for si in arg_idx}
 
+    memo = {}
+    budget = [0]
+
     def pyeval(e):
+        k_ = id(e)
+        if k_ in memo:
+            return memo[k_]
+        budget[0] += 1
+        if budget[0] > 200000:
+            raise NotComparable("factor expressions too large")
+        r_ = pyeval_(e)
+        memo[k_] = r_
+        return r_
+
+    def pyeval_(e):
         si = S.e2i.get(e)
         if si is not None and si not in arg_idx and not S.nodes[si]["factors"]:
             return (0, 0) if isinstance(e, Zero) else atoms[si]
